@@ -459,21 +459,33 @@ fn do_op(
             held_push(geti("l"), Held::Local(span));
         }
         "levent" => {
+            let cc = Cell::new(0u32);
             if let Some((n, p)) = evt {
                 let p = own(p);
                 let key = step["evt"]["name"].as_i64().unwrap_or(0);
+                let tick = || cc.set(cc.get() + 1);
                 match rc.variant(key, 3) {
                     0 if p.len() == 1 => {
                         let kv = p[0].clone();
-                        LocalSpan::add_event(Event::new(n.clone()).with_property(move || kv));
+                        LocalSpan::add_event(Event::new(n.clone()).with_property(|| {
+                            tick();
+                            kv
+                        }));
                     }
                     1 => {
                         #[allow(deprecated)]
-                        Event::add_to_local_parent(n.clone(), move || p.into_iter().map(|(k, v)| (k.into(), v.into())));
+                        Event::add_to_local_parent(n.clone(), || {
+                            tick();
+                            p.into_iter().map(|(k, v)| (k.into(), v.into()))
+                        });
                     }
-                    _ => LocalSpan::add_event(Event::new(n.clone()).with_properties(move || p)),
+                    _ => LocalSpan::add_event(Event::new(n.clone()).with_properties(|| {
+                        tick();
+                        p
+                    })),
                 }
             }
+            out.insert("cc".into(), json!(cc.get()));
         }
         "lprops" => {
             let cc = Cell::new(0u32);
@@ -538,20 +550,32 @@ fn do_op(
             }
         },
         "sevent" => {
+            let cc = Cell::new(0u32);
             if let (Some(s), Some((n, p))) = (get_span(rc, geti("h")), evt) {
                 let p = own(p);
                 let key = step["evt"]["name"].as_i64().unwrap_or(0);
+                let tick = || cc.set(cc.get() + 1);
                 match rc.variant(key, 3) {
                     0 if p.len() == 1 => {
                         let kv = p[0].clone();
-                        s.add_event(Event::new(n.clone()).with_property(move || kv));
+                        s.add_event(Event::new(n.clone()).with_property(|| {
+                            tick();
+                            kv
+                        }));
                     }
                     1 => {
                         #[allow(deprecated)]
-                        Event::add_to_parent(n.clone(), &s, move || p.into_iter().map(|(k, v)| (k.into(), v.into())));
+                        Event::add_to_parent(n.clone(), &s, || {
+                            tick();
+                            p.into_iter().map(|(k, v)| (k.into(), v.into()))
+                        });
                     }
-                    _ => s.add_event(Event::new(n.clone()).with_properties(move || p)),
+                    _ => s.add_event(Event::new(n.clone()).with_properties(|| {
+                        tick();
+                        p
+                    })),
                 }
+                out.insert("cc".into(), json!(cc.get()));
             }
         }
         "sprops" => {
@@ -665,6 +689,7 @@ fn do_op(
                     geti("g"),
                     step["inner"].as_str().unwrap_or("none"),
                     step["fin"].as_bool().unwrap_or(false),
+                    step["tail"].as_bool().unwrap_or(false),
                 );
                 out.insert("ready".into(), json!(ready));
                 rc.futs.lock().unwrap().insert(geti("f"), ad);
